@@ -1230,3 +1230,27 @@ for _pid in ('C19', 'C14'):
     multi(_pid, 'duty-cycle-stored-before-abs-range-check', 'mutant', [
         (DC, "        if not (-1 <= pwm <= 1):", "        self.__pwm = pwm\n\n        if not abs(self.__pwm) <= 1:"),
         (DC, "            )\n\n        self.__pwm = pwm\n", "            )\n")], _pid)
+for _pid in ('C12', 'C01', 'C17'):
+    benign(_pid, 'reset-update-with-a-fresh-list-per-key', PT, "            for variable in element.time_variables.keys():\n                element.time_variables[variable] = []\n",
+           "            element.time_variables.update({variable: [] for variable in element.time_variables})\n")
+benign('C16', 'stop-check-bool-is-true', SV, "                if stop_condition.check_condition():\n", "                if bool(stop_condition.check_condition()) is True:\n")
+mutant('C16', 'stop-check-result-is-true', SV, "                if stop_condition.check_condition():\n", "                if stop_condition.check_condition() is True:\n", 'C16')
+_LOAD_CALL_OLD = """                    external_torque = \\
+                        self.__powertrain.elements[i].external_torque(
+                            time=self.__powertrain.time[-1],
+                            angular_position=self.__powertrain.elements[i].
+                            angular_position,
+                            angular_speed=self.__powertrain.elements[i].
+                            angular_speed
+                        )
+"""
+benign('C02', 'load-call-through-a-keyword-bundle', SV, _LOAD_CALL_OLD, """                    element = self.__powertrain.elements[i]
+                    state = {'time': self.__powertrain.time[-1], 'angular_position': element.angular_position,
+                             'angular_speed': element.angular_speed}
+                    external_torque = element.external_torque(**state)
+""")
+mutant('C02', 'load-call-through-a-keyword-bundle-crossed', SV, _LOAD_CALL_OLD, """                    element = self.__powertrain.elements[i]
+                    state = {'time': self.__powertrain.time[-1], 'angular_position': element.angular_speed,
+                             'angular_speed': element.angular_position}
+                    external_torque = element.external_torque(**state)
+""", 'C02')
